@@ -6,7 +6,7 @@ import json, os, re, subprocess, sys, time
 name, checks = sys.argv[1], sys.argv[2:]
 d = '/verif/seeded/' + name
 patch = d + '/patch.diff'
-assert subprocess.run(['git', '-C', '/repo', 'status', '--porcelain'], capture_output=True, text=True).stdout.strip() == '', '/repo is not clean'
+assert subprocess.run(['git', '-C', '/repo', 'status', '--porcelain', '--', 'include', 'src'], capture_output=True, text=True).stdout.strip() == '', '/repo is not clean'
 r = subprocess.run(['git', '-C', '/repo', 'apply', '--whitespace=nowarn', patch], capture_output=True, text=True)
 if r.returncode != 0:
     r = subprocess.run(['git', '-C', '/repo', 'apply', '--3way', '--whitespace=nowarn', patch], capture_output=True, text=True)
@@ -24,7 +24,7 @@ try:
         res['runs'].append({'check': c, 'exit': p.returncode, 'violation_keys': keys[:12], 'n_keys': len(keys), 'wall_s': round(time.time() - t0, 1), 'tail': p.stdout.strip().splitlines()[-1:] })
         print(c, 'exit', p.returncode, len(keys), 'keys', keys[:4])
 finally:
-    subprocess.run(['git', '-C', '/repo', 'checkout', '--', '.'])
+    subprocess.run(['git', '-C', '/repo', 'checkout', '--', 'include', 'src'])
     subprocess.run(['git', '-C', '/repo', 'clean', '-fdq', '--', 'include', 'src'])
 res['caught_by'] = [r['check'] for r in res['runs'] if r['exit'] == 1]
 json.dump(res, open(d + '/result.json', 'w'), indent=1)
